@@ -770,3 +770,147 @@ func genPathFns(repo, out string) {
 	}
 	writeIfChanged(filepath.Join(out, "PathFns.v"), b.String())
 }
+
+// ---- conffiles of deb and ipk: a loop that collects one string per selected entry, joined into a text ----
+// var acc []string
+// for _, v := range info.Contents { switch v.Type { case T1, T2...: acc = append(acc, E(v)) } }
+// return []byte(strings.Join(acc, SEP) + END)
+func genListFns(repo, out string) {
+	ff := parseFile(filepath.Join(repo, "files/files.go"))
+	consts := stringConsts(ff)
+	var b strings.Builder
+	b.WriteString("(* GENERATED from /repo (deb/deb.go, ipk/ipk.go: conffiles) on every run by translators/strfn.go (genListFns) - do not edit *)\n")
+	b.WriteString("From Coq Require Import List String Bool.\nFrom Coq Require Import Strings.Byte.\nFrom NfpmV Require Import Lib.Bytes Model.Path Model.Content.\nFrom NfpmV Require Import Gen.PathFns.\nImport ListNotations.\nOpen Scope list_scope.\nOpen Scope bool_scope.\n\n")
+	for _, t := range [][2]string{{"deb/deb.go", "src_deb_conffiles"}, {"ipk/ipk.go", "src_ipk_conffiles"}} {
+		f := parseFile(filepath.Join(repo, t[0]))
+		c := &trCtx{consts: map[string]string{}}
+		body := "[]"
+		var fd *ast.FuncDecl
+		for _, d := range f.Decls {
+			if x, ok := d.(*ast.FuncDecl); ok && x.Name.Name == "conffiles" && x.Body != nil {
+				fd = x
+			}
+		}
+		func() {
+			if fd == nil {
+				c.fail("no function conffiles in %s", t[0])
+				return
+			}
+			var loop *ast.RangeStmt
+			var ret *ast.ReturnStmt
+			for _, st := range fd.Body.List {
+				switch x := st.(type) {
+				case *ast.DeclStmt: // var acc []string
+				case *ast.RangeStmt:
+					if loop != nil {
+						c.fail("two loops")
+					}
+					loop = x
+				case *ast.ReturnStmt:
+					ret = x
+				default:
+					c.fail("statement outside the subset")
+				}
+			}
+			if loop == nil || ret == nil || len(ret.Results) != 1 {
+				c.fail("no loop or no return")
+				return
+			}
+			// range info.Contents
+			if se, ok := loop.X.(*ast.SelectorExpr); !ok || se.Sel.Name != "Contents" {
+				c.fail("loop over something else than info.Contents")
+				return
+			}
+			v, _ := loop.Value.(*ast.Ident)
+			if v == nil || len(loop.Body.List) != 1 {
+				c.fail("loop body outside the subset")
+				return
+			}
+			sw, ok := loop.Body.List[0].(*ast.SwitchStmt)
+			if !ok || sw.Init != nil || len(sw.Body.List) != 1 {
+				c.fail("loop body is not a switch with one case")
+				return
+			}
+			if se, ok := sw.Tag.(*ast.SelectorExpr); !ok || se.Sel.Name != "Type" {
+				c.fail("switch over something else than the entry's type")
+				return
+			}
+			cc := sw.Body.List[0].(*ast.CaseClause)
+			var labels []string
+			for _, e := range cc.List {
+				name := ""
+				if se, ok := e.(*ast.SelectorExpr); ok {
+					name = se.Sel.Name
+				}
+				val, ok := consts[name]
+				if !ok {
+					c.fail("case label that is not a type constant of files")
+					return
+				}
+				labels = append(labels, coqStr(val))
+			}
+			if len(cc.Body) != 1 {
+				c.fail("case body outside the subset")
+				return
+			}
+			as, ok := cc.Body[0].(*ast.AssignStmt)
+			if !ok || len(as.Rhs) != 1 {
+				c.fail("case body is not an append")
+				return
+			}
+			ap, ok := as.Rhs[0].(*ast.CallExpr)
+			if !ok || len(ap.Args) != 2 {
+				c.fail("case body is not an append of one value")
+				return
+			}
+			if id, ok := ap.Fun.(*ast.Ident); !ok || id.Name != "append" {
+				c.fail("case body is not an append")
+				return
+			}
+			// the appended value: files.<PathFn>(v.Destination)
+			item := ""
+			if ce, ok := ap.Args[1].(*ast.CallExpr); ok && len(ce.Args) == 1 {
+				if se, ok := ce.Fun.(*ast.SelectorExpr); ok {
+					if arg, ok := ce.Args[0].(*ast.SelectorExpr); ok && arg.Sel.Name == "Destination" {
+						if id, ok := arg.X.(*ast.Ident); ok && id.Name == v.Name {
+							item = "(src_" + se.Sel.Name + " (c_dst c))"
+						}
+					}
+				}
+			}
+			if item == "" {
+				c.fail("appended value outside the subset")
+				return
+			}
+			// return []byte(strings.Join(acc, SEP) + END)
+			conv, ok := ret.Results[0].(*ast.CallExpr)
+			if !ok || len(conv.Args) != 1 {
+				c.fail("return outside the subset")
+				return
+			}
+			sum, ok := conv.Args[0].(*ast.BinaryExpr)
+			if !ok || sum.Op != token.ADD {
+				c.fail("return outside the subset")
+				return
+			}
+			join, ok := sum.X.(*ast.CallExpr)
+			end, okEnd := strLit(sum.Y)
+			if !ok || !okEnd || len(join.Args) != 2 {
+				c.fail("return outside the subset")
+				return
+			}
+			sep, okSep := strLit(join.Args[1])
+			if se, ok := join.Fun.(*ast.SelectorExpr); !ok || se.Sel.Name != "Join" || !okSep {
+				c.fail("return outside the subset")
+				return
+			}
+			body = "(concat_sep " + coqStr(sep) + " (flat_map (fun c => if typ_in (c_typ c) [" + strings.Join(labels, "; ") + "] then [" + item + "] else []) cs)) ++ " + coqStr(end)
+		}()
+		if c.err != "" {
+			fmt.Fprintf(&b, "(* %s conffiles: UNTRANSLATABLE - %s *)\nDefinition %s (cs : list content) : str := [].\nDefinition %s_translated : bool := false.\n\n", t[0], c.err, t[1], t[1])
+		} else {
+			fmt.Fprintf(&b, "(* %s: func conffiles, over the prepared contents *)\nDefinition %s (cs : list content) : str :=\n  %s.\nDefinition %s_translated : bool := true.\n\n", t[0], t[1], body, t[1])
+		}
+	}
+	writeIfChanged(filepath.Join(out, "ListFns.v"), b.String())
+}
